@@ -172,9 +172,9 @@ fn scratch_dir() -> PathBuf {
     d
 }
 
-pub fn c18(thorough: bool, seed: u64, threads: usize) -> Json {
-    let maxlen = if thorough { 7 } else { 5 };
-    let nrandom = if thorough { 200_000 } else { 10_000 };
+pub fn c18(thorough: bool, miri: bool, seed: u64, threads: usize) -> Json {
+    let maxlen = if miri { 2 } else if thorough { 7 } else { 5 };
+    let nrandom = if miri { 64 } else if thorough { 200_000 } else { 10_000 };
     let dir = scratch_dir();
     // configurations
     let mut cfgs: Vec<(u16, usize, usize)> = Vec::new();
